@@ -1,2 +1,918 @@
-(* Alloc2 — reserved. *)
+(* C16 — proofs about the buffer-capacity view (Alloc.v). *)
+From Coq Require Import Lia Arith.
 From FoxBase Require Import Bytes.
+From FoxRoute Require Import Node Lookup Tree Alloc.
+Open Scope char_scope.
+
+(* ---------- 1. the instrumented functions compute M1 ---------- *)
+
+Ltac sim_step IH :=
+  match goal with
+  | |- fst (lbpI _ _ _ _ _ _) = lbp _ _ _ _ _ => apply IH
+  | |- fst (lbdI _ _ _ _ _ _ _) = lbd _ _ _ _ _ _ => apply IH
+  | |- ?a = ?a => reflexivity
+  | |- fst (_, _) = _ => reflexivity
+  | |- context [match lbpI ?f ?p ?l ?ph ?s ?h with _ => _ end] =>
+       let r := fresh "r" in let h1 := fresh "h" in let E := fresh "E" in
+       pose proof (IH p l ph s h) as E; destruct (lbpI f p l ph s h) as [r h1]; cbn [fst] in E; rewrite <- E; clear E;
+       destruct r as [[?|] [|] ? ?| |]
+  | |- context [if ?c then _ else _] => destruct c eqn:?
+  | |- context [match ?x with _ => _ end] => destruct x eqn:?
+  end; cbn [fst snd].
+
+Lemma lbpI_sim : forall f path lazy ph s h, fst (lbpI f path lazy ph s h) = lbp f path lazy ph s.
+Proof.
+  induction f as [|f IH]; intros path lazy ph s h; [reflexivity|].
+  destruct ph; cbn [lbpI lbp]; repeat sim_step IH.
+Qed.
+
+Lemma lbdI_sim : forall f host path lazy ph s h, fst (lbdI f host path lazy ph s h) = lbd f host path lazy ph s.
+Proof.
+  induction f as [|f IH]; intros host path lazy ph s h; [reflexivity|].
+  pose proof (lbpI_sim f) as IHp.
+  destruct ph; cbn [lbdI lbd]; unfold lookup_by_pathI, lookup_by_path;
+    repeat first [sim_step IHp | sim_step IH].
+Qed.
+
+Lemma lookup_by_pathI_sim : forall f t path lazy ps0 tps0 h,
+  fst (lookup_by_pathI f t path lazy ps0 tps0 h) = lookup_by_path f t path lazy ps0 tps0.
+Proof. intros; apply lbpI_sim. Qed.
+
+Lemma lookup_by_domainI_sim : forall f t host path lazy ps0 tps0 h,
+  fst (lookup_by_domainI f t host path lazy ps0 tps0 h) = lookup_by_domain f t host path lazy ps0 tps0.
+Proof.
+  intros; unfold lookup_by_domainI, lookup_by_domain; repeat sim_step lbdI_sim.
+Qed.
+
+Theorem roots_lookupI_sim : forall f r m host path lazy ps0 tps0 h,
+  fst (roots_lookupI f r m host path lazy ps0 tps0 h) = roots_lookup f r m host path lazy ps0 tps0.
+Proof.
+  intros; unfold roots_lookupI, roots_lookup.
+  repeat (match goal with
+  | |- ?a = ?a => reflexivity
+  | |- fst (lookup_by_pathI _ _ _ _ _ _ _) = _ => apply lookup_by_pathI_sim
+  | |- context [match lookup_by_domainI ?f ?t ?ho ?p ?l ?a ?b ?h with _ => _ end] =>
+       let r := fresh "r" in let h1 := fresh "h" in let E := fresh "E" in
+       pose proof (lookup_by_domainI_sim f t ho p l a b h) as E; destruct (lookup_by_domainI f t ho p l a b h) as [r h1];
+       cbn [fst] in E; rewrite <- E; clear E; destruct r as [[?|] [|] ? ?| |]
+  | |- context [if ?c then _ else _] => destruct c eqn:?
+  | |- context [match ?x with _ => _ end] => destruct x eqn:?
+  end; cbn [fst snd]).
+Qed.
+
+(* ---------- 2. arithmetic of the static bounds ---------- *)
+Lemma maxl_nth : forall (f : node -> nat) l i c, nth_error l i = Some c -> f c <= maxl f l.
+Proof.
+  intros f l; unfold maxl; induction l as [|x l IH]; intros [|i] c H; cbn in *; try discriminate.
+  - injection H as ->. lia.
+  - specialize (IH _ _ H). lia.
+Qed.
+
+Lemma wdepth_eq : forall n, wdepth n = List.length (nparams n) + maxc n.
+Proof. intros [k r ch]; reflexivity. Qed.
+
+Lemma sneed_eq : forall n, sneed n = alts n + maxl sneed (nchildren n).
+Proof. intros [k r ch]; reflexivity. Qed.
+
+Lemma child_wdepth : forall n i c, nth_error (nchildren n) i = Some c -> wdepth c <= maxc n.
+Proof. intros; unfold maxc; eapply maxl_nth; eauto. Qed.
+
+Lemma child_sneed : forall n i c, nth_error (nchildren n) i = Some c -> alts n + sneed c <= sneed n.
+Proof. intros n i c H; rewrite (sneed_eq n). pose proof (maxl_nth sneed _ _ _ H). lia. Qed.
+
+Lemma alts_w : forall n wi, wildcard_child_index n = Some wi -> 1 <= alts n.
+Proof. intros n wi H; unfold alts; rewrite H; destruct (param_child_index n); lia. Qed.
+Lemma alts_p : forall n pi, param_child_index n = Some pi -> 1 <= alts n.
+Proof. intros n wi H; unfold alts; rewrite H; destruct (wildcard_child_index n); lia. Qed.
+Lemma alts_wp : forall n wi pi, wildcard_child_index n = Some wi -> param_child_index n = Some pi -> 2 <= alts n.
+Proof. intros n wi pi H1 H2; unfold alts; rewrite H1, H2; lia. Qed.
+
+(* ---------- 3. parseWildcard against the walk over a key ---------- *)
+Local Notation pw := parse_wildcard_go.
+
+Lemma pw_len : forall s p q st nm nm', List.length (pw s p st nm) = List.length (pw s q st nm').
+Proof.
+  induction s as [|c r IH]; intros p q st nm nm'; [reflexivity|].
+  destruct st; cbn [parse_wildcard_go].
+  - destruct (Ascii.eqb c "*"); [apply IH|]. destruct (Ascii.eqb c "{"); apply IH.
+  - destruct (Ascii.eqb c "}"); cbn [List.length]; [f_equal|]; apply IH.
+  - destruct (Ascii.eqb c "}"); cbn [List.length]; [f_equal|]; apply IH.
+  - apply IH.
+Qed.
+
+Lemma skipn_nth_cons : forall (A : Type) (l : list A) i x, nth_error l i = Some x -> skipn i l = x :: skipn (S i) l.
+Proof.
+  induction l as [|y l IH]; intros [|i] x H; cbn in *; try discriminate.
+  - injection H as ->; reflexivity.
+  - apply IH; assumption.
+Qed.
+
+Lemma skipn_skipn : forall (A : Type) x y (l : list A), skipn x (skipn y l) = skipn (x + y) l.
+Proof.
+  intros A x y; induction y as [|y IH]; intros l.
+  - rewrite Nat.add_0_r; reflexivity.
+  - rewrite Nat.add_succ_r. destruct l as [|a l]; cbn [skipn]; [destruct x; reflexivity|apply IH].
+Qed.
+
+(* inside a name: the parameter being collected ends at the first '}' *)
+Lemma pw_collect : forall s pos st name prm rest0,
+  st = PwParam \/ st = PwCatch ->
+  pw s pos st name = prm :: rest0 ->
+  pcatch prm = (match st with PwCatch => true | _ => false end) /\
+  match pend prm with
+  | Some e => pos < e /\ pw (skipn (e - pos) s) e PwDefault [] = rest0
+  | None => rest0 = []
+  end.
+Proof.
+  induction s as [|c r IH]; intros pos st name prm rest0 Hst H.
+  - destruct Hst as [-> | ->]; discriminate.
+  - assert (Hc : (if Ascii.eqb c "}" then
+                    {| pkey := rev name; pend := match r with [] => None | _ => Some (S pos) end;
+                       pcatch := match st with PwCatch => true | _ => false end |} :: pw r (S pos) PwDefault []
+                  else pw r (S pos) st (c :: name)) = prm :: rest0)
+      by (destruct Hst as [-> | ->]; exact H).
+    clear H. destruct (Ascii.eqb c "}").
+    + injection Hc as <- <-. cbn [pcatch pend]. split; [reflexivity|].
+      destruct r as [|c' r']; [reflexivity|]. split; [lia|].
+      replace (S pos - pos) with 1 by lia. reflexivity.
+    + specialize (IH _ _ _ _ _ Hst Hc). destruct IH as [Hp He]. split; [exact Hp|].
+      destruct (pend prm) as [e|]; [|exact He]. destruct He as [Hlt He]. split; [lia|].
+      replace (e - pos) with (S (e - S pos)) by lia. exact He.
+Qed.
+
+Definition synced (n : node) (i pkc : nat) : Prop :=
+  pw (skipn i (nkey n)) i PwDefault [] = skipn pkc (nparams n).
+Definition nocatch (n : node) (pkc : nat) : Prop :=
+  first_infix_catch (nparams n) = first_infix_catch (skipn pkc (nparams n)).
+
+Lemma synced_0 : forall n, synced n 0 0 /\ nocatch n 0.
+Proof. intros n; split; reflexivity. Qed.
+
+Lemma nth_skipn_cons : forall (A : Type) (l : list A) k x, nth_error l k = Some x -> skipn k l = x :: skipn (S k) l.
+Proof. intros; apply skipn_nth_cons; assumption. Qed.
+
+(* a static byte of the key *)
+Lemma synced_static : forall n i pkc k,
+  synced n i pkc -> nth_error (nkey n) i = Some k -> Ascii.eqb k "{" = false -> Ascii.eqb k "*" = false ->
+  synced n (S i) pkc.
+Proof.
+  unfold synced; intros n i pkc k H Hk H1 H2.
+  rewrite (skipn_nth_cons _ _ _ _ Hk) in H. cbn [parse_wildcard_go] in H. rewrite H1, H2 in H. exact H.
+Qed.
+
+(* the '{' of a named parameter *)
+Lemma synced_brace : forall n i pkc prm,
+  synced n i pkc -> nth_error (nkey n) i = Some "{" -> nth_error (nparams n) pkc = Some prm ->
+  pcatch prm = false /\
+  match pend prm with
+  | Some e => i < e /\ synced n e (S pkc)
+  | None => skipn (S pkc) (nparams n) = []
+  end.
+Proof.
+  unfold synced; intros n i pkc prm H Hk Hp.
+  rewrite (skipn_nth_cons _ _ _ _ Hk), (skipn_nth_cons _ _ _ _ Hp) in H.
+  cbn [parse_wildcard_go] in H. change (Ascii.eqb "{" "*") with false in H. change (Ascii.eqb "{" "{") with true in H.
+  cbv iota in H. apply pw_collect in H; [|left; reflexivity]. destruct H as [Hc He]. split; [exact Hc|].
+  destruct (pend prm) as [e|]; [|exact He]. destruct He as [Hlt He]. split; [lia|].
+  rewrite skipn_skipn in He. replace (e - S i + S i) with e in He by lia. exact He.
+Qed.
+
+(* the '*' of a catch-all *)
+Lemma synced_star : forall n i pkc prm,
+  synced n i pkc -> nth_error (nkey n) i = Some "*" -> nth_error (nparams n) pkc = Some prm ->
+  pcatch prm = true /\
+  match pend prm with
+  | Some e => i < e /\ synced n e (S pkc)
+  | None => skipn (S pkc) (nparams n) = []
+  end.
+Proof.
+  unfold synced; intros n i pkc prm H Hk Hp.
+  rewrite (skipn_nth_cons _ _ _ _ Hk), (skipn_nth_cons _ _ _ _ Hp) in H.
+  cbn [parse_wildcard_go] in H. change (Ascii.eqb "*" "*") with true in H. cbv iota in H.
+  destruct (skipn (S i) (nkey n)) as [|c r'] eqn:Hr; [discriminate|].
+  cbn [parse_wildcard_go] in H. apply pw_collect in H; [|right; reflexivity]. destruct H as [Hc He]. split; [exact Hc|].
+  destruct (pend prm) as [e|]; [|exact He]. destruct He as [Hlt He]. split; [lia|].
+  assert (Hr' : r' = skipn (S (S i)) (nkey n)).
+  { replace (S (S i)) with (1 + S i) by lia. rewrite <- skipn_skipn, Hr. reflexivity. }
+  rewrite Hr', skipn_skipn in He. replace (e - S (S i) + S (S i)) with e in He by lia. exact He.
+Qed.
+
+(* the inode of a node whose first infix catch-all is the pkc-th parameter holds the parameters after it *)
+Lemma inode_params : forall n pkc prm e ino,
+  nocatch n pkc -> nth_error (nparams n) pkc = Some prm -> pcatch prm = true -> pend prm = Some e ->
+  synced n e (S pkc) -> inode n = Some ino ->
+  List.length (nparams ino) + S pkc = List.length (nparams n) /\ nchildren ino = nchildren n.
+Proof.
+  unfold nocatch, synced, inode; intros n pkc prm e ino Hn Hp Hc He Hs Hi.
+  rewrite (skipn_nth_cons _ _ _ _ Hp) in Hn. cbn [first_infix_catch] in Hn. rewrite Hc, He in Hn.
+  rewrite Hn in Hi. injection Hi as <-. split; [|reflexivity].
+  unfold nparams at 1, parse_wildcard. cbn [nkey].
+  rewrite (pw_len _ 0 e PwDefault [] []), Hs, skipn_length.
+  apply nth_error_Some_lt in Hp || (assert (pkc < List.length (nparams n)) by (apply nth_error_Some; congruence)); lia.
+Qed.
+
+(* ---------- 4. the invariant of the walk ---------- *)
+Fixpoint sks_ok (B Bs : nat) (l : list skipped) : Prop :=
+  match l with
+  | [] => True
+  | sk :: rest =>
+      (forall c, nth_error (nchildren (sk_n sk)) (sk_child sk) = Some c ->
+                 sk_pcnt sk + wdepth c <= B /\ List.length rest + sneed c <= Bs) /\ sks_ok B Bs rest
+  end.
+
+Definition common (B Bs : nat) (lazy : bool) (s : st) : Prop :=
+  pcnt s <= List.length (ps s) /\ sks_ok B Bs (sks s) /\ List.length (sks s) + sneed (cur s) <= Bs /\
+  (tsr s = true -> lazy = false -> List.length (tps s) <= B) /\ List.length (ps s) <= B.
+
+Definition budget (B : nat) (s : st) : Prop :=
+  List.length (ps s) + (List.length (nparams (cur s)) - pkc s) + maxc (cur s) <= B.
+
+Definition inv (B Bs : nat) (lazy : bool) (path : bytes) (ph : phase) (s : st) : Prop :=
+  common B Bs lazy s /\
+  match ph with
+  | PWalk => budget B s /\ (cm s < List.length path -> pkc s = 0)
+  | PInner i => budget B s /\ i = cmn s /\ synced (cur s) i (pkc s) /\ nocatch (cur s) (pkc s)
+  | PSelect => budget B s
+  | PAfter => True
+  | PBack => pkc s = 0
+  | PCatch ino start => List.length (ps s) + 1 + wdepth ino <= B /\ sneed ino <= Bs
+  end.
+
+Definition res_ok (B : nat) (lazy : bool) (r : lres) : Prop :=
+  match r with
+  | Found _ t p tp => List.length p <= B /\ (t = true -> lazy = false -> List.length tp <= B)
+  | _ => True
+  end.
+
+Definition good (C : hw) (B : nat) (lazy : bool) (x : lres * hw) : Prop :=
+  hw_le (snd x) C /\ res_ok B lazy (fst x).
+
+Lemma bump_le : forall C B Bs lazy s h,
+  B <= h_ps C -> B <= h_tps C -> Bs <= h_sks C -> common B Bs lazy s -> hw_le h C -> hw_le (bump lazy h s) C.
+Proof.
+  unfold hw_le, bump, common; intros C B Bs lazy s h H1 H2 H3 (Hc1 & Hc2 & Hc3 & Hc4 & Hc5) (Ha & Hb & Hc); cbn [h_ps h_tps h_sks].
+  repeat split; try lia.
+  destruct (tsr s) eqn:Et, lazy eqn:El; cbn [andb negb]; try lia;
+  try (specialize (Hc4 eq_refl eq_refl); lia).
+Qed.
+
+Lemma hp_le : forall C h p, hw_le h C -> List.length p <= h_ps C -> hw_le (hp h p) C.
+Proof. unfold hw_le, hp; intros C h p (Ha & Hb & Hc) Hp; cbn [h_ps h_tps h_sks]; repeat split; lia. Qed.
+
+Ltac prj := cbn [cur par cm cmn pcnt pkc sks ps tsr tn tps set_tsr push descend init_st dpush dgo
+                 sk_n sk_path sk_pcnt sk_child sks_ok fst snd List.length] in *.
+
+Lemma common_set_tsr : forall B Bs lazy s n tp,
+  common B Bs lazy s -> (lazy = false -> List.length tp <= B) -> common B Bs lazy (set_tsr lazy s n tp).
+Proof.
+  unfold common; intros B Bs lazy s n tp (H1 & H2 & H3 & H4 & H5) Htp; prj.
+  repeat split; try assumption. intros _ El. rewrite El. apply Htp; exact El.
+Qed.
+
+Definition pre (B Bs : nat) (lazy : bool) (s : st) (k : nat) : Prop :=
+  pcnt s <= List.length (ps s) /\ sks_ok B Bs (sks s) /\
+  List.length (sks s) + k + maxl sneed (nchildren (cur s)) <= Bs /\
+  (tsr s = true -> lazy = false -> List.length (tps s) <= B) /\ List.length (ps s) <= B /\
+  List.length (ps s) + maxc (cur s) <= B.
+
+Lemma pre_of_common : forall B Bs lazy s, common B Bs lazy s -> budget B s -> pre B Bs lazy s (alts (cur s)).
+Proof.
+  unfold common, pre, budget; intros B Bs lazy s (H1 & H2 & H3 & H4 & H5) Hb. rewrite sneed_eq in H3.
+  repeat split; try assumption; lia.
+Qed.
+
+Lemma pre_push : forall B Bs lazy s k idx, pre B Bs lazy s (S k) -> pre B Bs lazy (push s idx) k.
+Proof.
+  unfold pre, budget; intros B Bs lazy s k idx (H1 & H2 & H3 & H4 & H5 & Hb); prj.
+  repeat split; try assumption; try lia.
+  - pose proof (child_wdepth _ _ _ H). lia.
+  - pose proof (maxl_nth sneed _ _ _ H). lia.
+Qed.
+
+Lemma pre_set_tsr : forall B Bs lazy s k n tp,
+  pre B Bs lazy s k -> (lazy = false -> List.length tp <= B) -> pre B Bs lazy (set_tsr lazy s n tp) k.
+Proof.
+  unfold pre, budget; intros B Bs lazy s k n tp (H1 & H2 & H3 & H4 & H5 & Hb) Htp; prj.
+  repeat split; try assumption. intros _ El. rewrite El. apply Htp; exact El.
+Qed.
+
+Lemma pre_descend : forall B Bs lazy path s k i c,
+  pre B Bs lazy s k -> nth_error (nchildren (cur s)) i = Some c -> inv B Bs lazy path PWalk (descend s c).
+Proof.
+  unfold pre, inv, common, budget; intros B Bs lazy path s k i c (H1 & H2 & H3 & H4 & H5 & Hb) Hc; prj.
+  pose proof (child_wdepth _ _ _ Hc) as Hw. pose proof (maxl_nth sneed _ _ _ Hc) as Hs. rewrite wdepth_eq in Hw.
+  repeat split; try assumption; try lia.
+Qed.
+
+Lemma pre_common : forall B Bs lazy s, pre B Bs lazy s (alts (cur s)) -> common B Bs lazy s.
+Proof.
+  unfold common, pre; intros B Bs lazy s (H1 & H2 & H3 & H4 & H5 & Hb). rewrite sneed_eq.
+  repeat split; try assumption; lia.
+Qed.
+
+  Ltac rec_call := match goal with
+    | IH : _, HB1 : _ <= h_ps ?C, HB2 : _ <= h_tps ?C, HB3 : ?Bs <= h_sks ?C |- good ?C ?B _ (lbpI _ _ _ _ _ _) =>
+        apply (IH C _ _ _ _ _ B Bs HB1 HB2 HB3); [|assumption]
+    end.
+  Ltac leaf_res := split; cbn [fst snd]; [assumption || (apply hp_le; [assumption|]) | cbn [res_ok]].
+
+
+Section Step.
+  Variable f : nat.
+  Hypothesis IH : forall C path lazy ph s h B Bs,
+    B <= h_ps C -> B <= h_tps C -> Bs <= h_sks C ->
+    inv B Bs lazy path ph s -> hw_le h C -> good C B lazy (lbpI f path lazy ph s h).
+
+  Variables (C : hw) (path : bytes) (lazy : bool) (s : st) (h : hw) (B Bs : nat).
+  Hypothesis HB1 : B <= h_ps C.
+  Hypothesis HB2 : B <= h_tps C.
+  Hypothesis HB3 : Bs <= h_sks C.
+  Hypothesis Hh : hw_le h C.
+
+  Lemma step_PWalk : inv B Bs lazy path PWalk s -> good C B lazy (lbpI (S f) path lazy PWalk s h).
+  Proof.
+    intros (Hc & Hb & Hk). pose proof (bump_le _ _ _ _ _ _ HB1 HB2 HB3 Hc Hh) as Hh1.
+    cbn [lbpI]. destruct (Nat.ltb (cm s) (List.length path)) eqn:E.
+    - apply Nat.ltb_lt in E. apply (IH C _ _ _ _ _ B Bs HB1 HB2 HB3); [|assumption]. unfold inv, common, budget in *; prj.
+      rewrite (Hk E) in *. destruct (synced_0 (cur s)). repeat split; tauto || lia.
+    - apply (IH C _ _ _ _ _ B Bs HB1 HB2 HB3); [|assumption]. split; [assumption|exact I].
+  Qed.
+  Lemma step_PBack : inv B Bs lazy path PBack s -> good C B lazy (lbpI (S f) path lazy PBack s h).
+  Proof.
+    intros (Hc & Hk). pose proof (bump_le _ _ _ _ _ _ HB1 HB2 HB3 Hc Hh) as Hh1.
+    destruct Hc as (H1 & H2 & H3 & H4 & H5).
+    cbn [lbpI]. destruct (sks s) as [|sk rest] eqn:Es.
+    - leaf_res. split; assumption.
+    - destruct (nth_error (nchildren (sk_n sk)) (sk_child sk)) as [c|] eqn:Ec; [|leaf_res; exact I].
+      destruct (Nat.ltb (List.length (ps s)) (sk_pcnt sk)) eqn:El; [leaf_res; exact I|].
+      apply Nat.ltb_ge in El. rec_call.
+      cbn [sks_ok List.length] in H2, H3. destruct H2 as [Hsk H2]. destruct (Hsk _ Ec) as [Ha Hb].
+      unfold inv, common, budget; prj. rewrite firstn_length, Hk. rewrite (wdepth_eq c) in Ha.
+      repeat split; try assumption; try lia.
+  Qed.
+
+  Lemma step_PAfter : inv B Bs lazy path PAfter s -> good C B lazy (lbpI (S f) path lazy PAfter s h).
+  Proof.
+    intros (Hc & _). pose proof (bump_le _ _ _ _ _ _ HB1 HB2 HB3 Hc Hh) as Hh1.
+    assert (Hc' : common B Bs lazy {| cur := cur s; par := par s; cm := cm s; cmn := cmn s; pcnt := 0; pkc := 0; sks := sks s;
+                  ps := ps s; tsr := tsr s; tn := tn s; tps := tps s |}).
+    { destruct Hc as (H1 & H2 & H3 & H4 & H5). unfold common; prj. repeat split; try assumption; lia. }
+    assert (H5 : List.length (ps s) <= B) by (destruct Hc as (_ & _ & _ & _ & H5); exact H5).
+    assert (H4 : tsr s = true -> lazy = false -> List.length (tps s) <= B) by (destruct Hc as (_ & _ & _ & H4 & _); exact H4).
+    cbn [lbpI]. prj.
+    repeat match goal with
+    | |- good _ _ _ (lbpI _ _ _ PBack _ _) =>
+        rec_call; (split; [|reflexivity]); first [exact Hc' | apply common_set_tsr; [exact Hc'|intros; prj; exact H5]]
+    | |- good _ _ _ (Found _ _ _ _, _) => leaf_res; split; [exact H5|intros; discriminate]
+    | |- context [if ?c then _ else _] => destruct c eqn:?
+    | |- context [match ?x with _ => _ end] => destruct x eqn:?
+    end.
+  Qed.
+  Lemma step_PSelect : inv B Bs lazy path PSelect s -> good C B lazy (lbpI (S f) path lazy PSelect s h).
+  Proof.
+    intros (Hc & Hb). pose proof (bump_le _ _ _ _ _ _ HB1 HB2 HB3 Hc Hh) as Hh1.
+    pose proof (pre_of_common _ _ _ _ Hc Hb) as Hp.
+    assert (H5 : List.length (ps s) <= B) by (destruct Hc as (_ & _ & _ & _ & H5); exact H5).
+    cbn [lbpI]. destruct (Nat.ltb (cm s) (List.length path)) eqn:E.
+    2:{ apply Nat.ltb_ge in E. rec_call. split; [exact Hc|]. split; [exact Hb|]. intros; lia. }
+    destruct (nth_error path (cm s)) as [p|] eqn:Ep; [|leaf_res; exact I].
+    destruct (find_child (cur s) p) as [idx|] eqn:Ef.
+    - unfold alts in Hp.
+      destruct (wildcard_child_index (cur s)) as [wi|] eqn:Ew; destruct (param_child_index (cur s)) as [pi|] eqn:Epi;
+        cbn [Nat.add] in Hp;
+        (destruct (nth_error (nchildren (cur s)) idx) as [c|] eqn:Ec; [|leaf_res; exact I]); rec_call.
+      + eapply pre_descend; [apply pre_push, pre_push; exact Hp|prj; exact Ec].
+      + eapply pre_descend; [apply pre_push; exact Hp|prj; exact Ec].
+      + eapply pre_descend; [apply pre_push; exact Hp|prj; exact Ec].
+      + eapply pre_descend; [exact Hp|exact Ec].
+    - match goal with |- context [if ?c then set_tsr lazy s (cur s) (ps s) else s] =>
+        assert (Hp' : pre B Bs lazy (if c then set_tsr lazy s (cur s) (ps s) else s) (alts (cur s)));
+        [destruct c; [apply pre_set_tsr; [exact Hp|intros; exact H5]|exact Hp]|];
+        assert (Ecur : cur (if c then set_tsr lazy s (cur s) (ps s) else s) = cur s) by (destruct c; reflexivity);
+        generalize dependent (if c then set_tsr lazy s (cur s) (ps s) else s) end.
+      intros s' Hp' Ecur. rewrite !Ecur. unfold alts in Hp'.
+      destruct (param_child_index (cur s)) as [pi|] eqn:Epi; destruct (wildcard_child_index (cur s)) as [wi|] eqn:Ew;
+        cbn [Nat.add] in Hp'.
+      + destruct (nth_error (nchildren (cur s)) pi) as [c|] eqn:Ec; [|leaf_res; exact I]. rec_call.
+        eapply pre_descend; [apply pre_push; eapply Hp'|prj; rewrite Ecur; exact Ec].
+      + destruct (nth_error (nchildren (cur s)) pi) as [c|] eqn:Ec; [|leaf_res; exact I]. rec_call.
+        eapply pre_descend; [eapply Hp'|rewrite Ecur; exact Ec].
+      + destruct (nth_error (nchildren (cur s)) wi) as [c|] eqn:Ec; [|leaf_res; exact I]. rec_call.
+        eapply pre_descend; [eapply Hp'|rewrite Ecur; exact Ec].
+      + rec_call. split; [|exact I]. apply pre_common. unfold alts. rewrite Ecur, Epi, Ew. exact Hp'.
+  Qed.
+  Lemma step_PCatch : forall ino start, inv B Bs lazy path (PCatch ino start) s ->
+    good C B lazy (lbpI (S f) path lazy (PCatch ino start) s h).
+  Proof.
+    intros ino start (Hc & K1 & K2). pose proof (bump_le _ _ _ _ _ _ HB1 HB2 HB3 Hc Hh) as Hh1.
+    pose proof Hc as (H1 & H2 & H3 & H4 & H5).
+    cbn [lbpI]. destruct (nth_error (nparams (cur s)) (pkc s)) as [prm|] eqn:Ep; [|leaf_res; exact I].
+    destruct (index_byte (skipn (cm s) path) "/") as [[|d]|] eqn:Ei.
+    2:{ (* a further segment: sub-lookup on another context *)
+      assert (Hsub : good C (wdepth ino) false
+                (lbpI f (skipn (cm s + S d) path) false PWalk (init_st ino [] []) (bump lazy h s))).
+      { apply (IH C _ _ _ _ _ (wdepth ino) Bs); try assumption; try lia.
+        unfold inv, common, budget; prj. rewrite (wdepth_eq ino). repeat split; try lia; try exact I; try (intros; discriminate). }
+      destruct (lbpI f (skipn (cm s + S d) path) false PWalk (init_st ino [] []) (bump lazy h s)) as [r h1].
+      destruct Hsub as [Hh2 Hr]; cbn [fst snd] in Hh2, Hr.
+      destruct r as [[sn|] [|] sps stps| |]; cbn [res_ok] in Hr.
+      - destruct (tsr s) eqn:Et; rec_call; (split; [|split; prj; assumption]).
+        + unfold common; prj. repeat split; try assumption. intros; apply H4; solve [reflexivity | assumption].
+        + assert (Hc' : common B Bs lazy (set_tsr lazy s sn (ps s ++ [(pkey prm, slice path start (cm s + S d))] ++ stps))).
+          { apply common_set_tsr; [exact Hc|]. intros El. destruct Hr as [_ Hr]. specialize (Hr eq_refl eq_refl).
+            rewrite !app_length; cbn [List.length]. unfold kv in *; lia. }
+          unfold common in *; prj. exact Hc'.
+      - leaf_res.
+        + destruct lazy; [lia|]. rewrite !app_length; cbn [List.length]. destruct Hr as [Hr _]. unfold kv in *; lia.
+        + split; [|intros; discriminate]. destruct lazy; [lia|]. rewrite !app_length; cbn [List.length]. destruct Hr as [Hr _]. unfold kv in *; lia.
+      - rec_call. split; [|split; assumption]. unfold common; prj. repeat split; assumption.
+      - rec_call. split; [|split; assumption]. unfold common; prj. repeat split; assumption.
+      - leaf_res; exact I.
+      - leaf_res; exact I. }
+    all: assert (Hps' : List.length (if lazy then ps s else ps s ++ [(pkey prm, skipn start path)]) <= B)
+           by (destruct lazy; [lia|rewrite app_length; cbn [List.length]; unfold kv in *; lia]).
+    all: assert (Hps'' : pcnt s <= List.length (if lazy then ps s else ps s ++ [(pkey prm, skipn start path)]))
+           by (destruct lazy; [lia|rewrite app_length; cbn [List.length]; unfold kv in *; lia]).
+    all: destruct (pend prm) as [e|] eqn:Ee; [|leaf_res; [lia|split; [exact Hps'|intros; discriminate]]].
+    all: destruct (nth_error path start) as [c0|] eqn:Ec0; [|leaf_res; exact I].
+    all: destruct (Ascii.eqb c0 "/"); rec_call; (split; [|exact I]); try exact Hc.
+    all: unfold common; prj; repeat split; assumption.
+  Qed.
+  Lemma brace_inv : forall i prm cm' v,
+    inv B Bs lazy path (PInner i) s -> i < List.length (nkey (cur s)) ->
+    nth_error (nkey (cur s)) i = Some "{" -> nth_error (nparams (cur s)) (pkc s) = Some prm ->
+    inv B Bs lazy path
+      (PInner (i + match pend prm with
+                   | Some e => if Nat.leb (cmn s) e then e - cmn s else List.length (nkey (cur s)) - cmn s
+                   | None => List.length (nkey (cur s)) - cmn s end))
+      {| cur := cur s; par := par s; cm := cm';
+         cmn := cmn s + match pend prm with
+                        | Some e => if Nat.leb (cmn s) e then e - cmn s else List.length (nkey (cur s)) - cmn s
+                        | None => List.length (nkey (cur s)) - cmn s end;
+         pcnt := if lazy then pcnt s else S (pcnt s); pkc := S (pkc s); sks := sks s;
+         ps := if lazy then ps s else ps s ++ [(pkey prm, v)];
+         tsr := tsr s; tn := tn s; tps := tps s |}.
+  Proof.
+    intros i prm cm' v ((H1 & H2 & H3 & H4 & H5) & Hb & Hi & Hs & Hn) Hlt Hk Hp.
+    destruct (synced_brace _ _ _ _ Hs Hk Hp) as [Hpc Hpe].
+    assert (Hpk : pkc s < List.length (nparams (cur s))) by (apply nth_error_Some; congruence).
+    unfold inv, common, budget in *; prj. subst i.
+    repeat split; try assumption.
+    - destruct lazy; [lia|]. rewrite app_length; cbn [List.length]. lia.
+    - destruct lazy; [lia|]. rewrite app_length; cbn [List.length]. unfold kv in *; lia.
+    - destruct lazy; [lia|]. rewrite app_length; cbn [List.length]. unfold kv in *; lia.
+    - destruct (pend prm) as [e|].
+      + destruct Hpe as [Hlt' Hs']. assert (El : Nat.leb (cmn s) e = true) by (apply Nat.leb_le; lia). rewrite El.
+        replace (cmn s + (e - cmn s)) with e by lia. exact Hs'.
+      + replace (cmn s + (List.length (nkey (cur s)) - cmn s)) with (List.length (nkey (cur s))) by lia.
+        unfold synced. rewrite skipn_all, Hpe. reflexivity.
+    - unfold nocatch in *. rewrite Hn, (skipn_nth_cons _ _ _ _ Hp). cbn [first_infix_catch]. rewrite Hpc. reflexivity.
+  Qed.
+
+  Lemma step_PInner : forall i, inv B Bs lazy path (PInner i) s -> good C B lazy (lbpI (S f) path lazy (PInner i) s h).
+  Proof.
+    intros i Hinv. pose proof Hinv as (Hc & Hb & Hi & Hs & Hn).
+    pose proof (bump_le _ _ _ _ _ _ HB1 HB2 HB3 Hc Hh) as Hh1.
+    pose proof Hc as (H1 & H2 & H3 & H4 & H5).
+    cbn [lbpI].
+    destruct (negb (Nat.ltb (cm s) (List.length path))) eqn:E1; [rec_call; split; assumption|].
+    destruct (negb (Nat.ltb i (List.length (nkey (cur s))))) eqn:E2; [rec_call; split; assumption|].
+    apply Bool.negb_false_iff, Nat.ltb_lt in E2.
+    destruct (nth_error (nkey (cur s)) i) as [k|] eqn:Ek; [|leaf_res; exact I].
+    destruct (nth_error path (cm s)) as [p|] eqn:Epth; [|leaf_res; exact I].
+    destruct (negb (Ascii.eqb k p) || Ascii.eqb p "{" || Ascii.eqb p "*") eqn:Econd.
+    2:{ apply Bool.orb_false_iff in Econd as [Econd Ep2]. apply Bool.orb_false_iff in Econd as [Ekp Ep1].
+        apply Bool.negb_false_iff, Ascii.eqb_eq in Ekp. subst p.
+        rec_call. unfold inv, common, budget in *; prj. subst i.
+        repeat split; try assumption. eapply synced_static; eauto. }
+    destruct (Ascii.eqb k "{") eqn:Ekb.
+    - apply Ascii.eqb_eq in Ekb. subst k.
+      destruct (index_byte (skipn (cm s) path) "/") as [[|d]|] eqn:Eidx.
+      + rec_call. split; [exact Hc|exact I].
+      + destruct (nth_error (nparams (cur s)) (pkc s)) as [prm|] eqn:Eprm; [|leaf_res; exact I].
+        rec_call. apply brace_inv; assumption.
+      + destruct (nth_error (nparams (cur s)) (pkc s)) as [prm|] eqn:Eprm; [|leaf_res; exact I].
+        rec_call. apply brace_inv; assumption.
+    - destruct (Ascii.eqb k "*") eqn:Eks; [|rec_call; split; [exact Hc|exact I]].
+      apply Ascii.eqb_eq in Eks. subst k.
+      destruct (nth_error (nparams (cur s)) (pkc s)) as [prm|] eqn:Eprm; [|leaf_res; exact I].
+      assert (Hpk : pkc s < List.length (nparams (cur s))) by (apply nth_error_Some; congruence).
+      assert (Hcm : forall x, common B Bs lazy {| cur := cur s; par := par s; cm := cm s; cmn := x; pcnt := pcnt s;
+                      pkc := pkc s; sks := sks s; ps := ps s; tsr := tsr s; tn := tn s; tps := tps s |})
+        by (intros x; unfold common; prj; repeat split; assumption).
+      assert (Hnone : good C B lazy
+        match nchildren (cur s) with
+        | [] => (Found (Some (cur s)) false (if lazy then ps s else ps s ++ [(pkey prm, skipn (cm s) path)]) (tps s),
+                 hp (bump lazy h s) (if lazy then ps s else ps s ++ [(pkey prm, skipn (cm s) path)]))
+        | c0 :: _ => lbpI f path lazy (PCatch c0 (cm s))
+              {| cur := cur s; par := par s; cm := cm s; cmn := cmn s + (List.length (nkey (cur s)) - cmn s); pcnt := pcnt s;
+                 pkc := pkc s; sks := sks s; ps := ps s; tsr := tsr s; tn := tn s; tps := tps s |} (bump lazy h s)
+        end).
+      { unfold budget in Hb. destruct (nchildren (cur s)) as [|c0 rest] eqn:Ech.
+        - assert (Hl : List.length (if lazy then ps s else ps s ++ [(pkey prm, skipn (cm s) path)]) <= B)
+            by (destruct lazy; [lia|rewrite app_length; cbn [List.length]; unfold kv in *; lia]).
+          leaf_res; [lia|split; [exact Hl|intros; discriminate]].
+        - assert (E0 : nth_error (nchildren (cur s)) 0 = Some c0) by (rewrite Ech; reflexivity).
+          pose proof (child_wdepth _ _ _ E0). pose proof (child_sneed _ _ _ E0).
+          rec_call. split; [apply Hcm|]. prj. split; lia. }
+      destruct (pend prm) as [e|] eqn:Ee; [|exact Hnone].
+      destruct (Nat.leb (cmn s) e) eqn:El; [|exact Hnone].
+      destruct (inode (cur s)) as [ino|] eqn:Eino; [|leaf_res; exact I].
+      destruct (synced_star _ _ _ _ Hs Ek Eprm) as [Hpc Hpe]. rewrite Ee in Hpe. destruct Hpe as [Hlt Hs'].
+      destruct (inode_params _ _ _ _ _ Hn Eprm Hpc Ee Hs' Eino) as [Hlen Hch].
+      rec_call. split; [apply Hcm|]. prj. unfold budget in Hb.
+      split.
+      + rewrite wdepth_eq. unfold maxc in *. rewrite Hch. lia.
+      + rewrite sneed_eq. rewrite (sneed_eq (cur s)) in H3.
+        unfold alts, wildcard_child_index, param_child_index in *. rewrite Hch. lia.
+  Qed.
+End Step.
+
+Lemma lbpI_inv : forall f C path lazy ph s h B Bs,
+  B <= h_ps C -> B <= h_tps C -> Bs <= h_sks C ->
+  inv B Bs lazy path ph s -> hw_le h C -> good C B lazy (lbpI f path lazy ph s h).
+Proof.
+  induction f as [|f IH]; intros C path lazy ph s h B Bs HB1 HB2 HB3 Hinv Hh.
+  - split; [exact Hh|exact I].
+  - destruct ph.
+    + eapply step_PWalk; eauto.
+    + eapply step_PInner; eauto.
+    + eapply step_PSelect; eauto.
+    + eapply step_PAfter; eauto.
+    + eapply step_PBack; eauto.
+    + eapply step_PCatch; eauto.
+Qed.
+
+(* lookupByPath from a context holding ps0 *)
+Lemma lookup_by_pathI_inv : forall f C target path lazy ps0 tps0 h B Bs,
+  B <= h_ps C -> B <= h_tps C -> Bs <= h_sks C ->
+  List.length ps0 + wdepth target <= B -> sneed target <= Bs -> hw_le h C ->
+  good C B lazy (lookup_by_pathI f target path lazy ps0 tps0 h).
+Proof.
+  intros f C target path lazy ps0 tps0 h B Bs HB1 HB2 HB3 Hw Hs Hh.
+  unfold lookup_by_pathI. eapply lbpI_inv; eauto.
+  unfold inv, common, budget; prj. rewrite wdepth_eq in Hw.
+  repeat split; try lia; try exact I; try (intros; discriminate).
+Qed.
+
+(* ---------- 5. lookupByDomain ---------- *)
+Definition dinv (B Bs : nat) (lazy : bool) (ph : dphase) (s : st) : Prop :=
+  common B Bs lazy s /\ match ph with DBack => pkc s = 0 | _ => budget B s end.
+
+Lemma pre_dgo : forall B Bs lazy s k i c,
+  pre B Bs lazy s k -> nth_error (nchildren (cur s)) i = Some c -> dinv B Bs lazy DWalk (dgo s c).
+Proof.
+  unfold pre, dinv, common, budget; intros B Bs lazy s k i c (H1 & H2 & H3 & H4 & H5 & Hb) Hc; prj.
+  pose proof (child_wdepth _ _ _ Hc) as Hw. pose proof (maxl_nth sneed _ _ _ Hc) as Hs. rewrite wdepth_eq in Hw.
+  repeat split; try assumption; try lia.
+Qed.
+
+Section DStep.
+  Variable f : nat.
+  Hypothesis IH : forall C host path lazy ph s h B Bs,
+    B <= h_ps C -> B <= h_tps C -> Bs <= h_sks C ->
+    dinv B Bs lazy ph s -> hw_le h C -> good C B lazy (lbdI f host path lazy ph s h).
+
+  Variables (C : hw) (host path : bytes) (lazy : bool) (s : st) (h : hw) (B Bs : nat).
+  Hypothesis HB1 : B <= h_ps C.
+  Hypothesis HB2 : B <= h_tps C.
+  Hypothesis HB3 : Bs <= h_sks C.
+  Hypothesis Hh : hw_le h C.
+
+  Ltac drec_call := match goal with
+    | IH : _, HB1 : _ <= h_ps ?C, HB2 : _ <= h_tps ?C, HB3 : ?Bs <= h_sks ?C |- good ?C ?B _ (lbdI _ _ _ _ _ _ _) =>
+        apply (IH C _ _ _ _ _ _ B Bs HB1 HB2 HB3); [|assumption]
+    end.
+
+  Lemma step_DWalk : dinv B Bs lazy DWalk s -> good C B lazy (lbdI (S f) host path lazy DWalk s h).
+  Proof.
+    intros (Hc & Hb). pose proof (bump_le _ _ _ _ _ _ HB1 HB2 HB3 Hc Hh) as Hh1.
+    cbn [lbdI]. destruct (Nat.ltb (cm s) (List.length host)); drec_call.
+    - unfold dinv, common, budget in *; prj. tauto.
+    - split; assumption.
+  Qed.
+
+  Lemma step_DInner : forall i, dinv B Bs lazy (DInner i) s -> good C B lazy (lbdI (S f) host path lazy (DInner i) s h).
+  Proof.
+    intros i (Hc & Hb). pose proof (bump_le _ _ _ _ _ _ HB1 HB2 HB3 Hc Hh) as Hh1.
+    pose proof Hc as (H1 & H2 & H3 & H4 & H5).
+    cbn [lbdI].
+    destruct (negb (Nat.ltb (cm s) (List.length host))); [drec_call; split; assumption|].
+    destruct (negb (Nat.ltb i (List.length (nkey (cur s))))); [drec_call; split; assumption|].
+    destruct (nth_error (nkey (cur s)) i) as [k|]; [|leaf_res; exact I].
+    destruct (nth_error host (cm s)) as [p|]; [|leaf_res; exact I].
+    destruct (negb (Ascii.eqb k p) || Ascii.eqb p "{").
+    2:{ drec_call. unfold dinv, common, budget in *; prj. tauto. }
+    destruct (Ascii.eqb k "{"); [|drec_call; split; assumption].
+    assert (Hstep : forall prm cm' adv v, nth_error (nparams (cur s)) (pkc s) = Some prm ->
+      dinv B Bs lazy (DInner (i + adv))
+        {| cur := cur s; par := par s; cm := cm'; cmn := cmn s + adv;
+           pcnt := if lazy then pcnt s else S (pcnt s); pkc := S (pkc s); sks := sks s;
+           ps := if lazy then ps s else ps s ++ [(pkey prm, v)]; tsr := tsr s; tn := tn s; tps := tps s |}).
+    { intros prm cm' adv v Hp.
+      assert (Hpk : pkc s < List.length (nparams (cur s))) by (apply nth_error_Some; congruence).
+      unfold dinv, common, budget in *; prj.
+      repeat split; try assumption; (destruct lazy; [lia|]); rewrite app_length; cbn [List.length]; unfold kv in *; lia. }
+    destruct (index_byte (skipn (cm s) host) ".") as [[|d]|].
+    - drec_call; split; assumption.
+    - destruct (nth_error (nparams (cur s)) (pkc s)) as [prm|] eqn:Eprm; [|leaf_res; exact I].
+      drec_call. apply Hstep; reflexivity.
+    - destruct (nth_error (nparams (cur s)) (pkc s)) as [prm|] eqn:Eprm; [|leaf_res; exact I].
+      drec_call. apply Hstep; reflexivity.
+  Qed.
+
+  Lemma step_DSelect : dinv B Bs lazy DSelect s -> good C B lazy (lbdI (S f) host path lazy DSelect s h).
+  Proof.
+    intros (Hc & Hb). pose proof (bump_le _ _ _ _ _ _ HB1 HB2 HB3 Hc Hh) as Hh1.
+    pose proof (pre_of_common _ _ _ _ Hc Hb) as Hp.
+    cbn [lbdI]. destruct (Nat.ltb (cm s) (List.length host)); [|drec_call; split; assumption].
+    destruct (nth_error host (cm s)) as [p|]; [|leaf_res; exact I].
+    destruct (find_child (cur s) p) as [idx|].
+    - destruct (param_child_index (cur s)) as [pi|] eqn:Epi.
+      + destruct (nth_error (nchildren (cur s)) idx) as [c|] eqn:Ec; [|leaf_res; exact I]. drec_call.
+        change (dpush s (cur s) pi) with (push s pi).
+        eapply pre_dgo; [apply (pre_push _ _ _ _ 0)|prj; exact Ec].
+        pose proof (alts_p _ _ Epi). destruct Hp as (P1 & P2 & P3 & P4 & P5 & P6).
+        unfold pre. repeat split; try assumption. lia.
+      + destruct (nth_error (nchildren (cur s)) idx) as [c|] eqn:Ec; [|leaf_res; exact I]. drec_call.
+        eapply pre_dgo; [exact Hp|exact Ec].
+    - destruct (param_child_index (cur s)) as [pi|] eqn:Epi; [|drec_call; split; assumption].
+      destruct (nth_error (nchildren (cur s)) pi) as [c|] eqn:Ec; [|leaf_res; exact I]. drec_call.
+      eapply pre_dgo; [exact Hp|exact Ec].
+  Qed.
+
+  Lemma step_DBack : dinv B Bs lazy DBack s -> good C B lazy (lbdI (S f) host path lazy DBack s h).
+  Proof.
+    intros (Hc & Hk). pose proof (bump_le _ _ _ _ _ _ HB1 HB2 HB3 Hc Hh) as Hh1.
+    destruct Hc as (H1 & H2 & H3 & H4 & H5).
+    cbn [lbdI]. destruct (sks s) as [|sk rest] eqn:Es.
+    - leaf_res. split; assumption.
+    - destruct (nth_error (nchildren (sk_n sk)) (sk_child sk)) as [c|] eqn:Ec; [|leaf_res; exact I].
+      destruct (Nat.ltb (List.length (ps s)) (sk_pcnt sk)) eqn:El; [leaf_res; exact I|].
+      apply Nat.ltb_ge in El. drec_call.
+      cbn [sks_ok List.length] in H2, H3. destruct H2 as [Hsk H2]. destruct (Hsk _ Ec) as [Ha Hb].
+      unfold dinv, common, budget; prj. rewrite firstn_length, Hk. rewrite (wdepth_eq c) in Ha.
+      repeat split; try assumption; try lia.
+  Qed.
+
+  Lemma step_DAfter : dinv B Bs lazy DAfter s -> good C B lazy (lbdI (S f) host path lazy DAfter s h).
+  Proof.
+    intros (Hc & Hb). pose proof (bump_le _ _ _ _ _ _ HB1 HB2 HB3 Hc Hh) as Hh1.
+    pose proof Hc as (H1 & H2 & H3 & H4 & H5).
+    assert (Hc' : common B Bs lazy {| cur := cur s; par := par s; cm := cm s; cmn := cmn s; pcnt := 0; pkc := 0; sks := sks s;
+                  ps := ps s; tsr := tsr s; tn := tn s; tps := tps s |}).
+    { unfold common; prj. repeat split; try assumption; lia. }
+    cbn [lbdI]. prj.
+    destruct (Nat.eqb (cm s) (List.length host) && Nat.eqb (cmn s) (List.length (nkey (cur s))));
+      [|drec_call; split; [exact Hc'|reflexivity]].
+    destruct (find_child (cur s) "/") as [idx|]; [|drec_call; split; [exact Hc'|reflexivity]].
+    destruct (nth_error (nchildren (cur s)) idx) as [c|] eqn:Ec; [|leaf_res; exact I].
+    pose proof (child_wdepth _ _ _ Ec) as Hw. pose proof (child_sneed _ _ _ Ec) as Hs. unfold budget in Hb.
+    assert (Hsub : good C (wdepth c) lazy (lookup_by_pathI f c path lazy [] [] (bump lazy h s))).
+    { eapply lookup_by_pathI_inv; try eassumption; try lia. cbn [List.length]. lia. }
+    destruct (lookup_by_pathI f c path lazy [] [] (bump lazy h s)) as [r h1].
+    destruct Hsub as [Hh2 Hr]; cbn [fst snd] in Hh2, Hr.
+    destruct r as [[sn|] [|] sps stps| |]; cbn [res_ok] in Hr.
+    - drec_call. split; [|destruct (tsr s); reflexivity].
+      destruct (tsr s) eqn:Et; [exact Hc'|].
+      apply common_set_tsr; [exact Hc'|]. intros El. destruct Hr as [_ Hr]. specialize (Hr eq_refl El).
+      prj. rewrite app_length. unfold kv in *; lia.
+    - assert (Hl : List.length (if lazy then ps s else ps s ++ sps) <= B)
+        by (destruct lazy; [lia|rewrite app_length; destruct Hr as [Hr _]; unfold kv in *; lia]).
+      leaf_res; [lia|split; [exact Hl|intros; discriminate]].
+    - drec_call; split; [exact Hc'|reflexivity].
+    - drec_call; split; [exact Hc'|reflexivity].
+    - leaf_res; exact I.
+    - leaf_res; exact I.
+  Qed.
+End DStep.
+
+Lemma lbdI_inv : forall f C host path lazy ph s h B Bs,
+  B <= h_ps C -> B <= h_tps C -> Bs <= h_sks C ->
+  dinv B Bs lazy ph s -> hw_le h C -> good C B lazy (lbdI f host path lazy ph s h).
+Proof.
+  induction f as [|f IH]; intros C host path lazy ph s h B Bs HB1 HB2 HB3 Hinv Hh.
+  - split; [exact Hh|exact I].
+  - destruct ph.
+    + eapply step_DWalk; eauto.
+    + eapply step_DInner; eauto.
+    + eapply step_DSelect; eauto.
+    + eapply step_DAfter; eauto.
+    + eapply step_DBack; eauto.
+Qed.
+
+Lemma lookup_by_domainI_inv : forall f C target host path lazy ps0 tps0 h B Bs,
+  B <= h_ps C -> B <= h_tps C -> Bs <= h_sks C ->
+  List.length ps0 + maxc target <= B -> sneed target <= Bs -> hw_le h C ->
+  good C B lazy (lookup_by_domainI f target host path lazy ps0 tps0 h).
+Proof.
+  intros f C target host path lazy ps0 tps0 h B Bs HB1 HB2 HB3 Hw Hs Hh.
+  assert (Hp : pre B Bs lazy (init_st target ps0 tps0) (alts target)).
+  { unfold pre; prj. rewrite sneed_eq in Hs. repeat split; try lia; try exact I; try (intros; discriminate). }
+  unfold lookup_by_domainI. destruct host as [|h0 host']; [leaf_res; exact I|].
+  destruct (find_child target h0) as [idx|].
+  - destruct (param_child_index target) as [pi|] eqn:Epi.
+    + destruct (nth_error (nchildren target) idx) as [c|] eqn:Ec; [|leaf_res; exact I].
+      apply (lbdI_inv _ C _ _ _ _ _ _ B Bs HB1 HB2 HB3); [|assumption].
+      change (dpush (init_st target ps0 tps0) target pi) with (push (init_st target ps0 tps0) pi).
+      eapply pre_dgo; [apply (pre_push _ _ _ _ 0)|prj; exact Ec].
+      pose proof (alts_p _ _ Epi). destruct Hp as (P1 & P2 & P3 & P4 & P5 & P6).
+      unfold pre. prj. repeat split; try assumption. lia.
+    + destruct (nth_error (nchildren target) idx) as [c|] eqn:Ec; [|leaf_res; exact I].
+      apply (lbdI_inv _ C _ _ _ _ _ _ B Bs HB1 HB2 HB3); [|assumption].
+      eapply pre_dgo; [exact Hp|exact Ec].
+  - destruct (param_child_index target) as [pi|] eqn:Epi.
+    + destruct (nth_error (nchildren target) pi) as [c|] eqn:Ec; [|leaf_res; exact I].
+      apply (lbdI_inv _ C _ _ _ _ _ _ B Bs HB1 HB2 HB3); [|assumption].
+      eapply pre_dgo; [exact Hp|exact Ec].
+    + leaf_res. split; [lia|intros; discriminate].
+Qed.
+
+(* ---------- 6. roots.lookup on a reset context (ServeHTTP: c.reset => params[:0]) ---------- *)
+Lemma roots_lookupI_good : forall f r m host path lazy tps0 h C,
+  wroots r <= h_ps C -> wroots r <= h_tps C -> sroots r <= h_sks C -> hw_le h C ->
+  good C (wroots r) lazy (roots_lookupI f r m host path lazy [] tps0 h).
+Proof.
+  intros f r m host path lazy tps0 h C HB1 HB2 HB3 Hh.
+  unfold roots_lookupI.
+  destruct (method_index r m) as [index|]; [|leaf_res; split; [cbn; lia|intros; discriminate]].
+  destruct (nth_error r index) as [root|] eqn:Er; [|leaf_res; exact I].
+  assert (Hw : maxc root <= wroots r) by (unfold wroots; eapply maxl_nth; eauto).
+  assert (Hs : sneed root <= sroots r) by (unfold sroots; eapply maxl_nth; eauto).
+  assert (Hchild : forall i c hh, nth_error (nchildren root) i = Some c -> hw_le hh C -> forall tp,
+            good C (wroots r) lazy (lookup_by_pathI f c path lazy [] tp hh)).
+  { intros i c hh Ec Hhh tp. pose proof (child_wdepth _ _ _ Ec). pose proof (child_sneed _ _ _ Ec).
+    eapply lookup_by_pathI_inv; try eassumption; cbn [List.length]; lia. }
+  assert (Hfb : forall hh tp, hw_le hh C ->
+            good C (wroots r) lazy
+              match find_child root "/" with
+              | Some idx => match nth_error (nchildren root) idx with
+                            | Some c => lookup_by_pathI f c path lazy [] tp hh
+                            | None => (LPanic, hh)
+                            end
+              | None => (Found None false [] tp, hh)
+              end).
+  { intros hh tp Hhh. destruct (find_child root "/") as [idx|].
+    - destruct (nth_error (nchildren root) idx) as [c|] eqn:Ec; [eapply Hchild; eauto|leaf_res; exact I].
+    - leaf_res; split; [cbn; lia|intros; discriminate]. }
+  destruct (nchildren root) as [|c0 rest] eqn:Ech; [leaf_res; split; [cbn; lia|intros; discriminate]|].
+  match goal with |- context [if ?c then _ else _] => destruct c end.
+  - apply (Hchild 0 c0); [reflexivity|assumption].
+  - destruct host as [|h0 host'].
+    + generalize (Hfb h tps0 Hh).
+      destruct (find_child root "/") as [idx|]; [intros Hf; exact Hf|intros _; leaf_res; split; [cbn; lia|intros; discriminate]].
+    + assert (Hd : good C (wroots r) lazy (lookup_by_domainI f root (h0 :: host') path lazy [] tps0 h)).
+      { eapply lookup_by_domainI_inv; try eassumption; cbn [List.length]; lia. }
+      destruct (lookup_by_domainI f root (h0 :: host') path lazy [] tps0 h) as [res h1].
+      destruct Hd as [Hh1 Hr]; cbn [fst snd] in Hh1, Hr.
+      destruct res as [[n|] t p tp| |].
+      * split; cbn [fst snd]; assumption.
+      * generalize (Hfb h1 tp Hh1). destruct (find_child root "/") as [idx|]; intros Hf.
+        -- exact Hf.
+        -- split; cbn [fst snd]; [assumption|]. cbn [res_ok] in *. split; [tauto|intros; discriminate].
+      * leaf_res; exact I.
+      * leaf_res; exact I.
+Qed.
+
+(* ---------- 7. the theorems of C16 ---------- *)
+
+(* (a) the instrumented lookup is M1 *)
+Theorem lookupI_simulates : forall f r m host path lazy ps0 tps0 h,
+  fst (roots_lookupI f r m host path lazy ps0 tps0 h) = roots_lookup f r m host path lazy ps0 tps0.
+Proof. exact roots_lookupI_sim. Qed.
+
+(* (b) params / tsrParams never hold more entries than the most wildcards on a root-to-leaf path,
+       the skipped-node stack never more than sroots, in any context taking part, at any time *)
+Theorem marks_bounded : forall f r m host path lazy tps0,
+  hw_le (snd (roots_lookupI f r m host path lazy [] tps0 hw0))
+        {| h_ps := wroots r; h_tps := wroots r; h_sks := sroots r |}.
+Proof.
+  intros. eapply (roots_lookupI_good f r m host path lazy tps0 hw0
+                    {| h_ps := wroots r; h_tps := wroots r; h_sks := sroots r |}); cbn; try lia.
+  unfold hw_le; cbn; lia.
+Qed.
+
+(* on a tree whose paths hold at most maxParams wildcards, params and tsrParams never grow:
+   not even on a cold context *)
+Theorem params_bounded : forall f (t : txn) m host path lazy tps0,
+  wroots (t_roots t) <= t_maxparams t ->
+  let h := snd (roots_lookupI f (t_roots t) m host path lazy [] tps0 hw0) in
+  grow_ps (txn_caps t) h = false /\ grow_tps (txn_caps t) h = false.
+Proof.
+  intros f t m host path lazy tps0 Hw h.
+  destruct (marks_bounded f (t_roots t) m host path lazy tps0) as (H1 & H2 & H3). cbn [h_ps h_tps h_sks] in *.
+  unfold grow_ps, grow_tps, txn_caps, caps_of; cbn [h_ps h_tps h_sks]. fold h in H1, H2.
+  split; apply Nat.ltb_ge; lia.
+Qed.
+
+Theorem skipped_bounded : forall f (t : txn) m host path lazy tps0,
+  h_sks (snd (roots_lookupI f (t_roots t) m host path lazy [] tps0 hw0)) <= sroots (t_roots t).
+Proof. intros. destruct (marks_bounded f (t_roots t) m host path lazy tps0) as (H1 & H2 & H3). exact H3. Qed.
+
+(* ---------- 8. what the previous request left in tsrParams does not matter ---------- *)
+Definition with_tps (s : st) (x : list kv) : st :=
+  {| cur := cur s; par := par s; cm := cm s; cmn := cmn s; pcnt := pcnt s; pkc := pkc s; sks := sks s;
+     ps := ps s; tsr := tsr s; tn := tn s; tps := x |}.
+
+Definition rres (lazy : bool) (a b : lres * hw) : Prop :=
+  snd a = snd b /\
+  match fst a, fst b with
+  | Found n t p tp, Found n' t' p' tp' => n = n' /\ t = t' /\ p = p' /\ (t = true -> lazy = false -> tp = tp')
+  | LPanic, LPanic => True
+  | LOutOfFuel, LOutOfFuel => True
+  | _, _ => False
+  end.
+
+Definition trel (lazy : bool) (s : st) (x : list kv) : Prop := tsr s = true -> lazy = false -> x = tps s.
+
+Lemma bump_with_tps : forall lazy h s x, trel lazy s x -> bump lazy h (with_tps s x) = bump lazy h s.
+Proof.
+  unfold trel, bump, with_tps; intros lazy h s x H; cbn [ps tsr tps sks].
+  destruct (tsr s), lazy; cbn [andb negb]; try reflexivity. rewrite (H eq_refl eq_refl). reflexivity.
+Qed.
+
+Lemma rres_refl : forall lazy a, rres lazy a a.
+Proof. intros lazy [[n t p tp| |] h]; unfold rres; cbn; auto. Qed.
+
+Ltac tps_leaf Hrel :=
+  first
+  [ apply rres_refl
+  | split; cbn [fst snd]; [reflexivity|]; repeat split; try reflexivity;
+    first [ intros; discriminate | exact Hrel
+          | (intros _ El; rewrite El; reflexivity)
+          | (intros Et El; unfold trel in Hrel; prj; auto) ] ].
+
+Ltac tps_step IH Hrel :=
+  match goal with
+  | |- rres _ (lbpI ?f ?p ?l ?ph ?sl ?h) (lbpI ?f ?p ?l ?ph ?sr ?h) =>
+      let x := eval cbn [tps set_tsr] in (tps sl) in
+      let E := fresh "E" in
+      assert (E : sl = with_tps sr x) by (unfold with_tps; prj; congruence);
+      rewrite E; clear E; apply IH; unfold trel in *; prj;
+      first [ exact Hrel | (intros _ El; rewrite El; reflexivity) | (intros; discriminate) | auto | (intros; congruence) ]
+  | |- rres _ (lbdI ?f ?ho ?p ?l ?ph ?sl ?h) (lbdI ?f ?ho ?p ?l ?ph ?sr ?h) =>
+      let x := eval cbn [tps set_tsr] in (tps sl) in
+      let E := fresh "E" in
+      assert (E : sl = with_tps sr x) by (unfold with_tps; prj; congruence);
+      rewrite E; clear E; apply IH; unfold trel in *; prj;
+      first [ exact Hrel | (intros _ El; rewrite El; reflexivity) | (intros; discriminate) | auto | (intros; congruence) ]
+  | |- rres _ (_, _) (_, _) => tps_leaf Hrel
+  | |- context [if ?c then _ else _] => destruct c eqn:?; prj
+  | |- context [match ?x with _ => _ end] => destruct x eqn:?; prj
+  end.
+
+Lemma lbpI_tps : forall f path lazy ph s x h,
+  trel lazy s x -> rres lazy (lbpI f path lazy ph (with_tps s x) h) (lbpI f path lazy ph s h).
+Proof.
+  induction f as [|f IH]; intros path lazy ph s x h Hrel; [apply rres_refl|].
+  destruct ph; cbn [lbpI]; rewrite (bump_with_tps _ _ _ _ Hrel); unfold with_tps, par_is_leaf, descend, push, set_tsr; prj.
+  all: repeat tps_step IH Hrel.
+Qed.
+
+Lemma lbdI_tps : forall f host path lazy ph s x h,
+  trel lazy s x -> rres lazy (lbdI f host path lazy ph (with_tps s x) h) (lbdI f host path lazy ph s h).
+Proof.
+  induction f as [|f IH]; intros host path lazy ph s x h Hrel; [apply rres_refl|].
+  destruct ph; cbn [lbdI]; rewrite (bump_with_tps _ _ _ _ Hrel);
+    unfold with_tps, par_is_leaf, dgo, dpush, set_tsr, lookup_by_pathI; prj.
+  all: repeat tps_step IH Hrel.
+Qed.
+
+Lemma lookup_by_pathI_tps : forall f t path lazy ps0 x y h,
+  rres lazy (lookup_by_pathI f t path lazy ps0 x h) (lookup_by_pathI f t path lazy ps0 y h).
+Proof.
+  intros. unfold lookup_by_pathI. change (init_st t ps0 x) with (with_tps (init_st t ps0 y) x).
+  apply lbpI_tps. unfold trel; prj. intros; discriminate.
+Qed.
+
+Lemma lookup_by_domainI_tps : forall f t host path lazy ps0 x y h,
+  rres lazy (lookup_by_domainI f t host path lazy ps0 x h) (lookup_by_domainI f t host path lazy ps0 y h).
+Proof.
+  intros. unfold lookup_by_domainI, dpush, dgo, init_st; prj.
+  repeat match goal with
+  | |- rres _ (lbdI ?f ?ho ?p ?l ?ph ?sl ?h) (lbdI ?f ?ho ?p ?l ?ph ?sr ?h) =>
+      change sl with (with_tps sr x); apply lbdI_tps; unfold trel; prj; intros; discriminate
+  | |- rres _ (_, _) (_, _) => split; cbn [fst snd]; [reflexivity|]; repeat split; try reflexivity; intros; discriminate
+  | |- context [match ?z with _ => _ end] => destruct z eqn:?
+  end.
+Qed.
+
+(* the marks of a lookup do not depend on the stale content of tsrParams *)
+Theorem marks_ignore_stale_tsrparams : forall f r m host path lazy ps0 x y h,
+  snd (roots_lookupI f r m host path lazy ps0 x h) = snd (roots_lookupI f r m host path lazy ps0 y h).
+Proof.
+  intros. unfold roots_lookupI.
+  repeat match goal with
+  | |- ?a = ?a => reflexivity
+  | |- snd (lookup_by_pathI _ _ _ _ _ _ _) = snd (lookup_by_pathI _ _ _ _ _ _ _) => apply lookup_by_pathI_tps
+  | |- context [lookup_by_domainI ?f ?t ?ho ?p ?l ?ps0 x ?h] =>
+      let R := fresh "R" in
+      pose proof (lookup_by_domainI_tps f t ho p l ps0 x y h) as R;
+      destruct (lookup_by_domainI f t ho p l ps0 x h) as [[n1 t1 p1 tp1| |] h1];
+      destruct (lookup_by_domainI f t ho p l ps0 y h) as [[n2 t2 p2 tp2| |] h2];
+      destruct R as [R1 R2]; cbn [fst snd] in R1, R2; try contradiction; subst;
+      [destruct R2 as (-> & -> & -> & R2)| |]; cbn [fst snd]
+  | |- context [match ?z with _ => _ end] => destruct z eqn:?; cbn [fst snd]
+  | |- context [if ?z then _ else _] => destruct z eqn:?; cbn [fst snd]
+  end.
+Qed.
